@@ -71,6 +71,10 @@ need_recode(const char *buf, off_t len)
 		pos++;
 	}
 
+	/* the last line may end with the buffer instead of a line break */
+	if (llen > 998)
+		res |= long_flag;
+
 	return res;
 }
 
